@@ -139,3 +139,4 @@ def run(ctx):
     # ---------------- R05c XOR shape whitelist (shared with C05)
     from . import c05
     c05.rule_whitelist(ctx, P)
+    ctx.borrow('c16', ['R16a'], 'a refused create keeps nothing allocated')
